@@ -52,7 +52,10 @@ def main():
         if rc0 != 0:
             print(out0[-1500:])
         meta["ran"].append(run + " (HEAD) -> rc=%d" % rc0)
-        rc, out = sh("git apply %s" % patch, cwd=wt)
+        # patch.orig.diff (if present): the agent's patch against the HEAD of its worktree; patch.diff is then the same
+        # change carried over by hand to the current /repo HEAD, whose later fix: commits touch the same lines
+        orig = os.path.join(src, "patch.orig.diff")
+        rc, out = sh("git apply %s" % (orig if os.path.exists(orig) else patch), cwd=wt)
         if rc != 0:
             note("error", "patch does not apply: " + out[-300:])
             return finish(name, src, meta)
@@ -104,7 +107,7 @@ def main():
 def finish(name, src, meta):
     dst = os.path.join(ROOT, "seeded", name)
     os.makedirs(dst, exist_ok=True)
-    for f in ("patch.diff", "demo_test.go", "notes.md"):
+    for f in ("patch.diff", "patch.orig.diff", "demo_test.go", "notes.md"):
         if os.path.exists(os.path.join(src, f)):
             shutil.copyfile(os.path.join(src, f), os.path.join(dst, f if f != "demo_test.go" else "demo_test.go.txt"))
     old = {}
